@@ -184,6 +184,13 @@ def main(replay=None):
         # ---- property oracle 2: the enclosing expression's pending operands are intact, one value contributed
         marks = [m[2:-1] for m in d["i_final"].split(",M<")[1:]] if ",M<" in d["i_final"] else []
         marks = [m.split(">,")[0] if ">," in m else m.rstrip(">") for m in d["i_final"].split("M<")[1:]]
+        # a statement of a loop condition that is short of an operand (`private _p = <nothing>`) must find NONE: what it prints as
+        # ["p", _p] is [p,] in every round - a value there was left behind by the body's previous round
+        stale = [m for m in marks if m.startswith("[p,") and m != "[p,]"]
+        if stale and not (d["i_final"].startswith("2:") and d["m_final"].startswith("2:")):
+            run.violation("operands survive the restart of a loop iteration: a statement short of an operand took %s, left by the body's "
+                          "previous round" % stale[0], rep)
+            continue
         marks = [m for m in marks if not m.startswith("VALUE ")][-1:]      # the enclosing expression is printed last
         if d["i_final"].startswith("2:") and d["m_final"].startswith("2:"):
             marks = []      # the program ends in a runtime error (a generated operand faults): the enclosing expression is never printed
